@@ -192,14 +192,24 @@ def run_join(case):
             step = core.dataflows.join('src', key_spec(case['shape'], 's'), 'tgt', tspec,
                                        copy.deepcopy(dict(fields)), mode=case['mode'],
                                        source_delete=case.get('source_delete', True))
-        out = core.materialise(core.from_state(st), step)
+        tail = []
+        if case.get('mutate_after'):
+            # a later step edits the rows of the (kept) source resource in place: the join has long passed them on
+            def wipe(rows):
+                for r in rows:
+                    if rows.res.name == 'src':
+                        r['v'] = None if universe == 'txt' else 0
+                        r['k'] = 'zzz'
+                    yield r
+            tail = [wipe]
+        out = core.materialise(core.from_state(st), step, *tail)
     finally:
         m.KVFile = old
     return src, tgt, fields, out
 
 
 def check(case):
-    label = 'join(%s) src=%r tgt=%r' % (', '.join('%s=%s' % (k, case[k]) for k in ('u', 'shape', 'mode', 'source_delete', 'spill', 'dedup', 'wild', 'tkey', 'onlylast', 'numkey') if k in case),
+    label = 'join(%s) src=%r tgt=%r' % (', '.join('%s=%s' % (k, case[k]) for k in ('u', 'shape', 'mode', 'source_delete', 'spill', 'dedup', 'wild', 'tkey', 'onlylast', 'numkey', 'mutate_after') if k in case),
                                        case['src'], case['tgt'])
     try:
         src, tgt, fields, out = run_join(case)
@@ -235,7 +245,7 @@ def check(case):
     res = dict(zip(names, out.rows))
     if res['mid'] != [{'z': 'untouched'}]:
         viol.append(('untouched', '%s: the unrelated resource changed' % label))
-    if not dedup and not case.get('source_delete', True) and core.enc_rows(res['src']) != core.enc_rows(src):
+    if not dedup and not case.get('source_delete', True) and not case.get('mutate_after') and core.enc_rows(res['src']) != core.enc_rows(src):
         viol.append(('source-changed', '%s: the kept source resource changed' % label))
     got = res['src'] if dedup else res['tgt']
     tk = 'tk' if case.get('tkey') else 'k'
@@ -313,6 +323,7 @@ def cases(tier):
             for t in tgts[:4] + tgts[-2:]:
                 for mode in ('inner', 'full-outer'):
                     out.append({'u': u, 'src': s, 'tgt': t, 'mode': mode, 'shape': 'list', 'source_delete': False})
+                    out.append({'u': u, 'src': s, 'tgt': t, 'mode': mode, 'shape': 'list', 'source_delete': False, 'mutate_after': True})
                     out.append({'u': u, 'src': s, 'tgt': t, 'mode': mode, 'shape': 'list', 'spill': True})
                 out.append({'u': u, 'src': s, 'tgt': t, 'mode': 'half-outer', 'shape': 'list', 'wild': True})
                 for mode in ('inner', 'half-outer', 'full-outer'):
